@@ -29,7 +29,8 @@ Ded(q, i, acc) ==
     ELSE Ded(q, i + 1, Append(acc, q[i]))
 Dedup(q) == Ded(q, 1, <<>>)
 
-LibNames == {"Servo", "LiquidCrystal", "LiquidCrystal_I2C", ""}
+\* (library names are data: a name that looks like a template field or carries braces is written and read back verbatim)
+LibNames == {"Servo", "LiquidCrystal", "LiquidCrystal_I2C", "", "{board}", "{}", "x}{y"}
 LibSeqs(n) == UNION {[1..k -> LibNames] : k \in 0..n}
 
 (* Laws of the two functions, checked by TLC over all library lists up to length 4 and all registered ids. *)
